@@ -63,6 +63,10 @@ M = [
  ("M58-parse-content-shift", "src/placement.rs", "entries.extend_from_slice(&row[1..blk_w + 1]);", "entries.extend_from_slice(&row[0..blk_w]);", {"C08": "PARSE-INV"}),
  ("M59-lookup-width-only", "src/placement.rs", "bs.width == width && bs.height == height", "bs.width == width && bs.height >= height", {"C08": "DOM-BITMAP", "C05": "DOM-BITMAP"}),
  ("M60-map-new-swapped", "src/placement.rs", "            entries: vec![M::LOW; w * h],\n            width: w,\n            height: h,", "            entries: vec![M::LOW; w * h],\n            width: h,\n            height: w,", {"C07": "PROV-MAP", "C08": "PROV-MAP"}),
+ ("M61-lfsr-gen-index", "src/errorcode/mod.rs", "ecc[j] = (GF(ecc[j + 1]) + k * GF(g[j + 1])).into();", "ecc[j] = (GF(ecc[j + 1]) + k * GF(g[j])).into();", {"C06": "LFSR"}),
+ ("M62-lfsr-feedback-cell", "src/errorcode/mod.rs", "let k = GF(ecc[0]) + GF(a);", "let k = GF(ecc[1]) + GF(a);", {"C06": "LFSR"}),
+ ("M63-pee-order", "src/errorcode/decoding/mod.rs", "let mut gamma: Vec<GF> = c.rev().map(Into::into).collect();\n    let mut errors = false;", "let mut gamma: Vec<GF> = c.map(Into::into).collect();\n    let mut errors = false;", {"C03": "SYNDROMES", "C09": "SYNDROMES"}),
+ ("M64-pee-skip-first-power", "src/errorcode/decoding/mod.rs", "    for o in out.iter_mut() {\n        for (g, alpha) in gamma.iter_mut().zip(GF::primitive_powers()) {", "    for o in out.iter_mut() {\n        for (g, alpha) in gamma.iter_mut().zip(GF::primitive_powers().skip(1)) {", {"C03": "SYNDROMES", "C09": "SYNDROMES"}),
  ("M24-switch-insert", "src/encodation/planner/generic.rs", "                    switches.push((rest_len, EncodationType::$enum));", "                    switches.insert(0, (rest_len, EncodationType::$enum));", {"C18": "PLAN-MONO"}),
 ]
 def main():
